@@ -108,6 +108,8 @@ def cases(tier, seed):
     cs = [{"kind": "table", "no": no, "cc": cc} for no, cc in alph.SETTINGS]
     for name in sg.sgdic:
         cs.append({"kind": "name", "name": name})
+    for no in range(1, 231):
+        cs.append({"kind": "hm", "no": no})
     cs.append({"kind": "dict"})
     return cs
 
@@ -242,7 +244,55 @@ def check_case(case):
             r.require(same_group(g, sg.sg(sgno=no, cell_choice="rhombohedral")), "name:%s:cc" % name,
                       "name + cell_choice='rhombohedral' equals number + rhombohedral")
         r.states = 1
+    elif case["kind"] == "hm":
+        # the harness's own Hermann-Mauguin table (oracles.HM) says which group a name denotes; every way of asking for the group
+        # (number, compact name, name written with blanks between the symbol elements, R names with h / r suffix or an explicit
+        # cell_choice, in keyword and in positional form) must deliver the table of that number and setting
+        no = case["no"]
+        for cc in (("standard", "rhombohedral") if no in alph.RHOMB else ("standard",)):
+            h = sg.sg(sgno=no, cell_choice=cc)
+            want_name = O.hm_compact(no) + ("r" if cc == "rhombohedral" else "")
+            got_name = "".join(h.name.split()).lower()
+            r.require(h.no == no and (got_name == want_name or (no in alph.RHOMB and cc == "standard" and got_name == want_name + "h")), "hm:%d/%s:name" % (no, cc),
+                      "group %d carries its Hermann-Mauguin symbol" % no, want_name, [h.no, h.name])
+            for lab, kw in O.group_forms(no, cc):
+                forms = [(lab, (), kw), (lab + ":positional", (kw.get("sgno"), kw.get("sgname"), kw.get("cell_choice", "standard")), {})]
+                for lab2, a, k2 in forms:
+                    key = "hm:%d/%s:%s" % (no, cc, lab2)
+                    try:
+                        g = sg.sg(*a, **k2)
+                        ok = same_group(g, h)
+                        obs = None if ok else [g.no, g.name, g.cell_choice]
+                    except Exception as ex:
+                        ok = False
+                        obs = repr(ex)
+                    r.require(ok, key, "sg.sg(%s) is group %d in the %s setting" % (", ".join("%s=%r" % kv for kv in kw.items()), no, cc), [no, cc], obs)
+                    r.transitions += 1
+                    r.nontrivial.add(key)
+        r.states = 1
     else:
+        # the dictionary does not depend on which other modules of the package have been imported (two fresh interpreters)
+        import json
+        import os
+        import subprocess
+        import sys
+
+        from ..core import REPO
+
+        code = ("import sys, json; sys.path.insert(0, %r); import warnings; warnings.simplefilter('ignore'); import xfab.sg as s; a = dict(s.sgdic)\n"
+                "import pkgutil, importlib, xfab\n"
+                "for m in pkgutil.iter_modules(xfab.__path__): importlib.import_module('xfab.' + m.name)\n"
+                "print(json.dumps([a, dict(s.sgdic)]))") % REPO
+        out = subprocess.run([sys.executable, "-c", code], capture_output=True, text=True, env=dict(os.environ, PYTHONDONTWRITEBYTECODE="1"))
+        try:
+            a, b = json.loads(out.stdout.strip().splitlines()[-1])
+            diff = sorted(k for k in set(a) | set(b) if a.get(k) != b.get(k))
+            r.require(not diff, "dict:import-order", "the name dictionary is the same before and after the other modules of the package are imported", [], diff[:10])
+            want = {nm: "Sg%d" % k[0] for nm, k in O.name_to_setting().items()}
+            wrong = sorted(k for k in want if a.get(k) != want[k])
+            r.require(not wrong, "dict:hm", "every Hermann-Mauguin name maps to its own number", [], [(k, a.get(k)) for k in wrong[:10]])
+        except Exception as ex:
+            r.violation("dict:import-order", "the name dictionary can be read in a fresh interpreter", None, repr(ex) + out.stderr[-300:])
         # the dictionary as a whole: every number 1..230 reachable, every value names an existing class
         vals = set(sg.sgdic.values())
         missing = [i for i in range(1, 231) if "Sg%d" % i not in vals]
@@ -266,4 +316,4 @@ def alphabet(tier):
 
 
 def samples(cases):
-    return [cases[0], cases[13], cases[236], cases[237], cases[-2]]
+    return [cases[0], cases[13], cases[236], cases[237], cases[-2], cases[-1]]
